@@ -156,6 +156,6 @@ package network
 //@   after call NewDriver#1 set optBase = optlog
 //@   loop 1 invariant -1 <= rangeindex && rangeindex < len(opts) && isnew(d) && d != nil
 //@   loop 1 invariant #every-option-applied-in-order optlog == optBase ++ applied(opts, box("*network.Driver", d), rangeindex + 1)
-//@   at call! UpdatePrivileges#1 assert #the-privilege-graph-is-built-only-with-levels-and-a-default-level recv == d && d.DefaultDesiredPriv != "" && len(d.PrivilegeLevels) > 0
+//@   at call! UpdatePrivileges#1 assert #the-privilege-graph-is-built-only-with-levels-and-a-default-level recv == d && d.DefaultDesiredPriv != "" && len(d.PrivilegeLevels) > 0 && optlog == optBase ++ applied(opts, box("*network.Driver", d), len(opts))
 //@   at return assert #no-levels-or-no-default-level-is-a-bad-option result.1 == nil ==> result.0 == d
 //@   ensures #nil-on-error result.1 != nil ==> result.0 == nil
